@@ -53,7 +53,9 @@ Definition reference_facts : facts := {|
   f_oog_only := true;
   f_addr_conv_total := true;
   f_direct_ro := true;
-  f_call_inherits_static := false |}.
+  f_call_inherits_static := false;
+  f_snap_each_call := true;
+  f_max_calls := 10 |}.
 
 (** sample world for witnesses: the state is a counter of writes; state-changing bodies write once *)
 Definition sample_body : mid -> list arg -> Z -> Z -> bres Z :=
@@ -89,3 +91,25 @@ Definition whoAmI_short_bech32_call : input :=
 Definition whoAmI_call : input := call_of 2099940174 132 [AStr hex_addr false 0 false].
 Definition oracle_query_call : input :=
   call_of 1808896047 100 [AStr (unibi ++ [58; 117; 117; 115; 100]) false 0 false].
+
+(** Wasm.query(contract, {"count":{}}) and Wasm.executeMulti([increment, rejected]) *)
+Definition wasm_query_call : input :=
+  call_of 114826537 260 [AStr [110; 105; 98; 105; 49] true 32 false; ABytes true].
+Definition executeMulti_call : input :=
+  call_of 1305550251 676 [AMsgs [(true, true, []); (true, true, [])]].
+
+(** sample world of a transaction: EVM side and other-module side are write counters.  State-changing
+    bodies write the other-module side; executeMulti writes once and THEN fails (its second message is
+    rejected); sendToBank writes both sides (ERC20 transfer, then bank mint + send). *)
+Definition partial_body : mid -> list arg -> Z * Z -> Z -> bres (Z * Z) :=
+  fun m _ st _ =>
+    match m with
+    | W_executeMulti => BErr (fst st, snd st + 1) 5000
+    | FT_sendToBank => BOk (fst st + 1, snd st + 1) 9000
+    | _ => if can_mutate m then BOk (fst st, snd st + 1) 1500 else BOk st 1200
+    end.
+Definition partial_after_mint : mid -> list arg -> Z * Z -> Z -> bres (Z * Z) := fun _ _ st _ => BOk st 0.
+Definition sample_touch : mid -> list arg -> Z * Z -> bool :=
+  fun m _ _ => match m with FT_sendToBank | FT_sendToEvm => true | _ => false end.
+Definition sample_transfer_ev (ev v : Z) : Z := ev + 1000.
+Definition x0 : txstate Z Z := {| x_ev := 0; x_ms := 0; x_j := []; x_cnt := 0 |}.
